@@ -375,6 +375,22 @@ example :
   subst hb
   rfl
 
+/-! ### `ReadAt` is retried as a whole -/
+
+/-- **`ReadAt` results are never stitched.**  What `casErrorHandlingBuffer.ReadAt(p, off)` returns on
+success is the answer of *one* buffer - the base or one of the handler's replacements - to the whole
+request `ReadAt(p, off)` at the same offset: whatever a failed attempt had already put into `p`
+(a `ReaderAt` may return the bytes before a medium error together with the error) is discarded and
+the replacement is asked for the full range again.  With `C16_exactly_once` this is why the result
+is the exact range of the object. -/
+theorem C16_readAt_not_stitched (b : Buf) (d : Digest) (h : List Resp) (off n : Nat) (x : Bytes) (fl : Bool)
+    (hr : (ehOp b d h (.readAt off n)).result = .readAt (.ok (x, fl))) :
+    ∃ b', (b' = b ∨ Resp.repl b' ∈ h) ∧ baseReadAt off n b' = .ok (x, fl) := by
+  obtain ⟨_, r2, _⟩ := retry_spec (baseReadAt off n) (fun b e => baseReadAt_own) h b
+  simp only [ehOp, Result.readAt.injEq] at hr
+  obtain ⟨_, b', hb', hf⟩ := r2 (x, fl) hr
+  exact ⟨b', hb', hf⟩
+
 /-! ### Stacked error handlers -/
 
 /-- **Exactly once through stacked handlers.**  A handler may answer with a buffer that carries an
